@@ -55,6 +55,10 @@ def inputs_of(rec):
 
 def judge_file(ctx, path, what, rc, out):
     lines, tail = vlib.check_trace_file(path)
+    crash = [l for l in lines if l.startswith('{"e":"crash"')]
+    lines = [l for l in lines if not l.startswith('{"e":"crash"')]
+    if crash and rc == 0:
+        raise vlib.Infra("crash record in a trace of a harness that exited 0")
     if rc != 0:
         op = "?"
         if tail:
@@ -149,9 +153,13 @@ def corruptions(recs):
             i = r["some"].index(1)
             mut(r, lambda x: x["some"].__setitem__(i, 0), "at_optional")
             mut(r, lambda x: x["valc"].__setitem__(i, x["valc"][i] + 1), "at_optional-const")
-            mut(r, lambda x: x["inr"].__setitem__(i, 0), "in_range")
             j = len(r["some"]) - 1
             mut(r, lambda x: (x["some"].__setitem__(j, 1)), "at_optional")
+            done.add(f)
+        elif f == "in_range" and 1 in r["inr"]:
+            i = r["inr"].index(1)
+            mut(r, lambda x: x["inr"].__setitem__(i, 0), "in_range")
+            mut(r, lambda x: x["ird"].__setitem__(len(x["ird"]) - 1, 1), "in_range_dim")
             done.add(f)
     return out
 
@@ -161,7 +169,7 @@ def sensitivity_guard(ctx, lines):
     cor = corruptions(recs)
     kinds = set(c[0]["f"] for c in cor)
     need = {"pos_range", "whole_range", "pos_ref_range", "whole_ref_range", "offset", "construct", "resize", "map",
-            "apply", "fill", "clamped_min", "clamped_sup", "clamped_sup_signed", "at"}
+            "apply", "fill", "clamped_min", "clamped_sup", "clamped_sup_signed", "at", "in_range"}
     if kinds != need:
         raise vlib.Infra("sensitivity guard: no corruptible record for %s" % sorted(need - kinds))
     p = os.path.join(ctx.workdir, "corrupted.ndjson")
